@@ -1,0 +1,245 @@
+//go:build verif
+// +build verif
+
+package linker
+
+import (
+	"github.com/evanw/esbuild/internal/ast"
+	"github.com/evanw/esbuild/internal/bundler"
+	"github.com/evanw/esbuild/internal/config"
+	"github.com/evanw/esbuild/internal/fs"
+	"github.com/evanw/esbuild/internal/graph"
+	"github.com/evanw/esbuild/internal/helpers"
+	"github.com/evanw/esbuild/internal/js_ast"
+	"github.com/evanw/esbuild/internal/logger"
+	"github.com/evanw/esbuild/internal/resolver"
+	"github.com/evanw/esbuild/internal/runtime"
+)
+
+// Used by the verification harness in /verif (property C04). No logic of its
+// own: VerifC04Link returns a function with the signature of Link whose body
+// is the body of Link with ONE extra call after treeShakingAndCodeSplitting
+// that copies the liveness graph (plain data) into *dump. The harness checks
+// on every run that the output files equal those of the real Link.
+
+type VerifC04Import struct {
+	Kind                  uint8 // ast.ImportKind
+	Valid                 bool  // record.SourceIndex.IsValid()
+	Target                uint32
+	ExternalNoSideEffects bool // ast.IsExternalWithoutSideEffects
+}
+
+type VerifC04Part struct {
+	IsLive               bool
+	CanBeRemovedIfUnused bool
+	ForceTreeShaking     bool
+	NumStmts             int
+	Deps                 [][2]uint32
+	Imports              []VerifC04Import // part.ImportRecordIndices, in order
+	Declared             [][2]uint32      // top-level declared symbols (links followed)
+	Uses                 [][2]uint32      // symbol uses (links followed)
+}
+
+type VerifC04File struct {
+	Repr            uint8 // 0 none/other, 1 JS, 2 CSS
+	Path            string
+	IsLive          bool
+	IsEntryPoint    bool
+	SideEffectsKind uint8
+	CSSIndexValid   bool
+	CSSIndex        uint32
+	CSSImports      []uint32 // CSS repr: import records with a valid source index
+	Parts           []VerifC04Part
+}
+
+type VerifC04Dump struct {
+	TreeShaking bool
+	IgnoreDCE   bool
+	EntryPoints []uint32
+	Files       []VerifC04File
+}
+
+func verifC04Ref(c *linkerContext, ref ast.Ref) [2]uint32 {
+	ref = ast.FollowSymbols(c.graph.Symbols, ref)
+	return [2]uint32{ref.SourceIndex, ref.InnerIndex}
+}
+
+func verifC04Dump(c *linkerContext, dump *VerifC04Dump) {
+	dump.TreeShaking = c.options.TreeShaking
+	dump.IgnoreDCE = c.options.IgnoreDCEAnnotations
+	for _, entryPoint := range c.graph.EntryPoints() {
+		dump.EntryPoints = append(dump.EntryPoints, entryPoint.SourceIndex)
+	}
+	dump.Files = make([]VerifC04File, len(c.graph.Files))
+	for i := range c.graph.Files {
+		file := &c.graph.Files[i]
+		out := &dump.Files[i]
+		out.Path = file.InputFile.Source.PrettyPaths.Rel
+		out.IsLive = file.IsLive
+		out.IsEntryPoint = file.IsEntryPoint()
+		out.SideEffectsKind = uint8(file.InputFile.SideEffects.Kind)
+		switch repr := file.InputFile.Repr.(type) {
+		case *graph.JSRepr:
+			out.Repr = 1
+			out.CSSIndexValid = repr.CSSSourceIndex.IsValid()
+			if out.CSSIndexValid {
+				out.CSSIndex = repr.CSSSourceIndex.GetIndex()
+			}
+			out.Parts = make([]VerifC04Part, len(repr.AST.Parts))
+			for j := range repr.AST.Parts {
+				part := &repr.AST.Parts[j]
+				p := &out.Parts[j]
+				p.IsLive = part.IsLive
+				p.CanBeRemovedIfUnused = part.CanBeRemovedIfUnused
+				p.ForceTreeShaking = part.ForceTreeShaking
+				p.NumStmts = len(part.Stmts)
+				for _, dep := range part.Dependencies {
+					p.Deps = append(p.Deps, [2]uint32{dep.SourceIndex, dep.PartIndex})
+				}
+				for _, importRecordIndex := range part.ImportRecordIndices {
+					record := &repr.AST.ImportRecords[importRecordIndex]
+					imp := VerifC04Import{Kind: uint8(record.Kind), Valid: record.SourceIndex.IsValid(), ExternalNoSideEffects: record.Flags.Has(ast.IsExternalWithoutSideEffects)}
+					if imp.Valid {
+						imp.Target = record.SourceIndex.GetIndex()
+					}
+					p.Imports = append(p.Imports, imp)
+				}
+				for _, declared := range part.DeclaredSymbols {
+					if declared.IsTopLevel {
+						p.Declared = append(p.Declared, verifC04Ref(c, declared.Ref))
+					}
+				}
+				for ref := range part.SymbolUses {
+					p.Uses = append(p.Uses, verifC04Ref(c, ref))
+				}
+			}
+		case *graph.CSSRepr:
+			out.Repr = 2
+			for _, record := range repr.AST.ImportRecords {
+				if record.SourceIndex.IsValid() {
+					out.CSSImports = append(out.CSSImports, record.SourceIndex.GetIndex())
+				}
+			}
+		}
+	}
+}
+
+func VerifC04Link(dump *VerifC04Dump) func(
+	options *config.Options,
+	timer *helpers.Timer,
+	log logger.Log,
+	fs fs.FS,
+	res *resolver.Resolver,
+	inputFiles []graph.InputFile,
+	entryPoints []graph.EntryPoint,
+	uniqueKeyPrefix string,
+	reachableFiles []uint32,
+	dataForSourceMaps func() []bundler.DataForSourceMap,
+) []graph.OutputFile {
+	return func(
+		options *config.Options,
+		timer *helpers.Timer,
+		log logger.Log,
+		fs fs.FS,
+		res *resolver.Resolver,
+		inputFiles []graph.InputFile,
+		entryPoints []graph.EntryPoint,
+		uniqueKeyPrefix string,
+		reachableFiles []uint32,
+		dataForSourceMaps func() []bundler.DataForSourceMap,
+	) []graph.OutputFile {
+		// ---- copy of the body of Link (linker.go) ----
+		timer.Begin("Link")
+		defer timer.End("Link")
+
+		log = wrappedLog(log)
+
+		timer.Begin("Clone linker graph")
+		c := linkerContext{
+			options:              options,
+			timer:                timer,
+			log:                  log,
+			fs:                   fs,
+			res:                  res,
+			dataForSourceMaps:    dataForSourceMaps,
+			uniqueKeyPrefix:      uniqueKeyPrefix,
+			uniqueKeyPrefixBytes: []byte(uniqueKeyPrefix),
+			graph: graph.CloneLinkerGraph(
+				inputFiles,
+				reachableFiles,
+				entryPoints,
+				options.CodeSplitting,
+			),
+		}
+		timer.End("Clone linker graph")
+
+		runtimeRepr := c.graph.Files[runtime.SourceIndex].InputFile.Repr.(*graph.JSRepr)
+		if c.options.ProfilerNames {
+			c.cjsRuntimeRef = runtimeRepr.AST.NamedExports["__commonJS"].Ref
+			c.esmRuntimeRef = runtimeRepr.AST.NamedExports["__esm"].Ref
+		} else {
+			c.cjsRuntimeRef = runtimeRepr.AST.NamedExports["__commonJSMin"].Ref
+			c.esmRuntimeRef = runtimeRepr.AST.NamedExports["__esmMin"].Ref
+		}
+
+		var additionalFiles []graph.OutputFile
+		for _, entryPoint := range entryPoints {
+			file := &c.graph.Files[entryPoint.SourceIndex].InputFile
+			switch repr := file.Repr.(type) {
+			case *graph.JSRepr:
+				if repr.AST.HasLazyExport && (c.options.Mode == config.ModePassThrough ||
+					(c.options.Mode == config.ModeConvertFormat && !c.options.OutputFormat.KeepESMImportExportSyntax())) {
+					repr.AST.ExportsKind = js_ast.ExportsCommonJS
+				}
+				if repr.AST.ExportKeyword.Len > 0 && (options.OutputFormat == config.FormatCommonJS ||
+					(options.OutputFormat == config.FormatIIFE && len(options.GlobalName) > 0)) {
+					repr.AST.UsesExportsRef = true
+					repr.Meta.ForceIncludeExportsForEntryPoint = true
+				}
+			case *graph.CopyRepr:
+				additionalFiles = append(additionalFiles, file.AdditionalFiles...)
+			}
+		}
+
+		if c.options.OutputFormat == config.FormatCommonJS {
+			c.unboundModuleRef = c.graph.GenerateNewSymbol(runtime.SourceIndex, ast.SymbolUnbound, "module")
+		} else {
+			c.unboundModuleRef = ast.InvalidRef
+		}
+
+		c.scanImportsAndExports()
+
+		if c.log.HasErrors() {
+			c.options.ExclusiveMangleCacheUpdate(func(map[string]interface{}, map[string]bool) {
+			})
+			return []graph.OutputFile{}
+		}
+
+		c.treeShakingAndCodeSplitting()
+
+		verifC04Dump(&c, dump) // <---- the one added call
+
+		if c.options.Mode == config.ModePassThrough {
+			for _, entryPoint := range c.graph.EntryPoints() {
+				c.preventExportsFromBeingRenamed(entryPoint.SourceIndex)
+			}
+		}
+
+		c.computeChunks()
+		c.computeCrossChunkDependencies()
+
+		c.timer.Begin("Waiting for mangle cache")
+		c.options.ExclusiveMangleCacheUpdate(func(
+			mangleCache map[string]interface{},
+			cssUsedLocalNames map[string]bool,
+		) {
+			c.timer.End("Waiting for mangle cache")
+			c.mangleProps(mangleCache)
+			c.mangleLocalCSS(cssUsedLocalNames)
+		})
+
+		ast.FollowAllSymbols(c.graph.Symbols)
+
+		return c.generateChunksInParallel(additionalFiles)
+	}
+}
